@@ -176,6 +176,7 @@ func c02Exec(ctx *core.Ctx, c c02Case) {
 			s.ReadTimeout = time.Hour // virtual clock: expires only when the harness fires it
 		}
 	})
+	serverKnobs(rig, fmt.Sprintf("%q|%d|%v|%d|%s|%s", c.Body, c.Read, c.Reject, c.Limit, c.Mode, c.Seg))
 	rig.BE.H.Data = func(sess int, r *rec.Reader, st smtp.StatusCollector) error {
 		if c.Read < 0 {
 			if err := r.ReadAll(512); c.Stall > 0 && err != nil && err.Error() != "EOF" {
